@@ -153,6 +153,71 @@ pub fn check_src(c: &SrcCase) -> CheckResult {
     }
 }
 
+/// A real generator of the five crates as the source: the child must be built from exactly the
+/// bytes ONE `fill_bytes(seed length)` call of the master delivers, and the master must be left
+/// exactly where that one call leaves it (word-based masters serve short requests from
+/// next_u32/next_u64, so splitting or merging requests changes both).
+#[derive(Clone, Debug, Serialize, Deserialize)]
+pub struct RealSrcCase {
+    pub child: Ty,
+    pub master: crate::ops::GenSpec,
+    pub master_pre: usize,
+    pub try_route: bool,
+}
+
+struct AsRng<'a>(&'a mut dyn Gen);
+impl rand_core::RngCore for AsRng<'_> {
+    fn next_u32(&mut self) -> u32 {
+        self.0.next_u32()
+    }
+    fn next_u64(&mut self) -> u64 {
+        self.0.next_u64()
+    }
+    fn fill_bytes(&mut self, dest: &mut [u8]) {
+        self.0.fill(dest)
+    }
+}
+
+pub fn check_real_src(c: &RealSrcCase) -> CheckResult {
+    let info = c.child.info();
+    let need = match info.engine {
+        Engine::Isaac => 1024,
+        Engine::Isaac64 => 2048,
+        _ => info.seed_len,
+    };
+    let mut master = c.master.build();
+    for _ in 0..c.master_pre {
+        master.next_u32();
+    }
+    let mut reference = master.clone_box();
+    let mut bytes = vec![0u8; need];
+    reference.fill(&mut bytes);
+    if info.linear && bytes[..info.seed_len].iter().all(|&b| b == 0) {
+        return Ok(CaseInfo::new(false).class("zero-block-from-real-master"));
+    }
+    let mut child = if c.try_route {
+        match adapter::try_from_rng(c.child, &mut AsRng(&mut *master)) {
+            Ok(g) => g,
+            Err(_) => return Err(Fail::new(format!("C09:try-spurious-error:{}", info.name), "try_from_rng failed on an infallible source")),
+        }
+    } else {
+        adapter::from_rng(c.child, &mut AsRng(&mut *master))
+    };
+    let how = if c.try_route { "try_from_rng" } else { "from_rng" };
+    // the master is where one fill_bytes(need) leaves it
+    for k in 0..3 {
+        let (x, y) = (master.next_u64(), reference.next_u64());
+        if x != y {
+            return Err(Fail::new(format!("C09:{}-source-position:{}", how, info.name), format!("{}({} as source) does not leave the source where one fill_bytes({}) call leaves it (word {} after)", how, c.master.ty().name(), need, k)));
+        }
+    }
+    // the child is the generator those bytes define
+    let src = SrcSpec { prefix: bytes, salt: 0, words_differ: false };
+    let (_, mut model) = model_from_source(c.child, &src);
+    compare_stream(info.name, &format!("{}-real-source", how), &mut *child, &mut model, 40)?;
+    Ok(CaseInfo::new(true).class(format!("master:{}", c.master.ty().name())).class(how))
+}
+
 pub fn def(ctx: &Ctx) -> PropDef {
     let t = ctx.tier;
     let mut subs: Vec<Box<dyn SubCheck>> = Vec::new();
@@ -188,9 +253,21 @@ pub fn def(ctx: &Ctx) -> PropDef {
             check_src,
         ));
     }
+    for ty in Ty::ALL {
+        subs.push(PSub::boxed(
+            format!("real-source/{}", ty.name()),
+            t.pick(2000, 150_000),
+            move || {
+                (proptest::sample::select(Ty::ALL.to_vec()).prop_flat_map(|m| gens::det_spec(m, true)), 0usize..=40, any::<bool>())
+                    .prop_map(move |(master, master_pre, try_route)| RealSrcCase { child: ty, master, master_pre, try_route })
+                    .boxed()
+            },
+            check_real_src,
+        ));
+    }
     PropDef {
         id: "C09",
-        rule: "cases = 19 generator types x (a) u64 argument (0, 1, MAX, -PHI, 2^k, 2^k-1, 32-bit, uniform) with the stream (<=700 native words) and == compared against from_seed of the independently computed documented expansion (SplitMix64 stream / PCG32 / ISAAC key layout with one pass; SplitMix64 itself: x is the state); (b) byte-scripted source streams (random, dense, single-bit, leading zero blocks for the linear types; in 30% of the cases the source\u{2019}s next_u32/next_u64 deliver an unrelated stream of their own, since the contract names fill_bytes) through from_rng and try_from_rng: generator == model built from exactly the bytes handed out (ISAAC: all 256 words, two passes), byte counter exact, next unread byte follows; (c) fallible sources failing at byte j for j across and beyond the amount read: Err carrying exactly the source's error value iff j < amount needed (XorShiftRng: also during a redraw). Non-trivial = u64 != 0, or source content not constant, or failure position > 0; distinct by hash of the case.".into(),
+        rule: "cases = 19 generator types x (a) u64 argument (0, 1, MAX, -PHI, 2^k, 2^k-1, 32-bit, uniform) with the stream (<=700 native words) and == compared against from_seed of the independently computed documented expansion (SplitMix64 stream / PCG32 / ISAAC key layout with one pass; SplitMix64 itself: x is the state); (b) byte-scripted source streams (random, dense, single-bit, leading zero blocks for the linear types; in 30% of the cases the source\u{2019}s next_u32/next_u64 deliver an unrelated stream of their own, since the contract names fill_bytes) through from_rng and try_from_rng: generator == model built from exactly the bytes handed out (ISAAC: all 256 words, two passes), byte counter exact, next unread byte follows; (b') every generator type of the five crates as the source, at generated positions: the child equals the model built from the bytes ONE fill_bytes(seed length) of a clone of the master delivers, and the master is left where that one call leaves it; (c) fallible sources failing at byte j for j across and beyond the amount read: Err carrying exactly the source's error value iff j < amount needed (XorShiftRng: also during a redraw). Non-trivial = u64 != 0, or source content not constant, or failure position > 0; distinct by hash of the case.".into(),
         explanation: None,
         assumptions: vec![
             "the documented expansions are modelled independently: refmodel::vigna::splitmix_bytes, refmodel::misc::pcg32_expand (rand_core's documented default), refmodel::isaac with 1 resp. 2 passes".into(),
